@@ -42,27 +42,31 @@ VERUS_UNITS = {
         "what": "lib.rs trait contracts; Max<T>/Min<T> merge, lattice_from, derived+manual eq/partial_cmp (generic T: Ord); "
                 "is_bot/is_top/default for the 12 numeric instantiations of impls_numeric!",
         # canary: (regex, replacement, function that must fail)
-        "canaries": [(r"if self\.0 < other\.0 \{", "if self.0 <= other.0 {", "merge"),
+        "canaries": [(r"changed == \(final\(self\)\.abs\(\) != old\(self\)\.abs\(\)\)", "changed == (final(self).abs() == old(self).abs())", "merge"),
+                     (r"if self\.0 < other\.0 \{", "if self.0 <= other.0 {", "merge"),
                      (r"Self\(<i8>::MIN\)", "Self(0)", "default")],
         "twins": ["max_u8::", "min_u8::"],
     },
     "lat_wrap": {
         "template": "contracts/verus/lat_wrap.rs.in", "props": LAT,
         "what": "WithBot<Inner>/WithTop<Inner>: merge, lattice_from, is_bot, is_top, default, eq, partial_cmp, generic in Inner/Other",
-        "canaries": [(r"\(this @ None, Some\(other_inner\)\) if !other_inner\.is_bot\(\) =>", "(this @ None, Some(other_inner)) =>", "merge"),
+        "canaries": [(r"final\(self\)\.abs\(\) == old\(self\)\.abs\(\)\.join\(other\.abs\(\)\)", "final(self).abs() == other.abs().join(other.abs())", "merge"),
+                     (r"\(this @ None, Some\(other_inner\)\) if !other_inner\.is_bot\(\) =>", "(this @ None, Some(other_inner)) =>", "merge"),
                      (r"\(None, Some\(_\)\) => Some\(Greater\),", "(None, Some(_)) => Some(Less),", "partial_cmp")],
         "twins": ["withbot_max::", "withtop_max::", "withtop_min::", "withbot_withtop::", "withtop_withbot::"],
     },
     "lat_pair": {
         "template": "contracts/verus/lat_pair.rs.in", "props": LAT + ["C07"],
         "what": "Pair<A,B> from rustc's expansion of derive(Lattice): merge, lattice_from, is_bot, is_top, default, eq, partial_cmp; PairBimorphism::call",
-        "canaries": [(r"othr_any_greater = true; \}", "self_any_greater = true; }", "partial_cmp")],
+        "canaries": [(r"ensures r\.a == lat_a, r\.b == lat_b,", "ensures r.a == lat_a, r.b != lat_b,", "call"),
+                     (r"othr_any_greater = true; \}", "self_any_greater = true; }", "partial_cmp")],
         "twins": ["pair_bt::"],
     },
     "lat_dom": {
         "template": "contracts/verus/lat_dom.rs.in", "props": LAT,
         "what": "DomPair<K,V> (key carrier totally ordered), (), Point (merge_req: equal values), Conflict (all but merge)",
-        "canaries": [(r"Some\(Greater\) => false,", "Some(Greater) => true,", "merge")],
+        "canaries": [(r"ensures r == self\.is_bot_spec\(\)", "ensures r != self.is_bot_spec()", "is_bot"),
+                     (r"Some\(Greater\) => false,", "Some(Greater) => true,", "merge")],
         "twins": ["dompair::", "dompair_wb::", "conflict_u8::", "unit::", "point_u8"],
     },
 }
@@ -138,6 +142,22 @@ KANI_UNITS["vk_var"] = {
     "bounded": {r".*": "<= 3 inserted tuples (Vec columns)"},
 }
 
+KANI_UNITS["vk_sim"] = {
+    "mode": "dep", "crate": "contracts/kani/vk_sim", "props": ["C36"],
+    "gen": [("src/sim/runtime.rs.in", "src/sim/runtime.rs"), ("src/sim/compiled.rs.in", "src/sim/compiled.rs")],
+    "what": "hydro_lang/src/sim/runtime.rs extracted verbatim (whole file) and compiled.rs::run_hooks, over shims; decision and release contracts "
+            "of the un-keyed hooks with a havoc bolero driver; run_hooks against the SimHook contract with havoc hooks",
+    "instantiation": "u8 items, queue lengths 0..3 (one harness per concrete length); run_hooks with 0..3 havoc hooks",
+    "bounded": {r".*": "queue length <= 3 / <= 3 hooks"},
+    "under_contract": r"StreamHook < T , (TotalOrder|NoOrder) >|for (SingletonHook|PassthroughSingletonHook|StreamOrderHook|MergeOrderedHook"
+                      r"|TopLevelStreamOrderHook|TopLevelFoldHook|TopLevelMergeOrderedHook) <|:: run_hooks$",
+    "trusted": ["contracts/kani/vk_sim/shims/dfir_rs/src/util/unsync/mpsc.rs: CONTRACT DOUBLE of dfir_rs::util::unsync::mpsc (try_send on an open unbounded "
+                "channel appends at the back and returns Ok); the real channel is outside CBMC's reach (C16)",
+                "contracts/kani/vk_sim/shims/bolero: havoc DynDriver (any value in the requested range) behind the real bolero-generator ValueGenerator impls",
+                "contracts/kani/vk_sim/src/lib.rs: marker types TotalOrder/NoOrder stand for hydro_lang::live_collections::stream's",
+                "log_writer = None in every harness: the log-formatting branches of release_decision are not covered"],
+}
+
 # property -> list of (engine, unit, harness filters or None, tiers)
 PROPS = {
     "C01": [("verus", "lat_ord"), ("verus", "lat_wrap"), ("verus", "lat_pair"), ("verus", "lat_dom"),
@@ -146,7 +166,7 @@ PROPS = {
                                 "coll2::union_find_merge"], ("thorough",))],
     "C02": [("verus", "lat_ord"), ("verus", "lat_wrap"), ("verus", "lat_pair"), ("verus", "lat_dom"),
             ("kani", "vk_lat", ["::changed", "point_u8", "coll::set_merge", "coll::map_merge_option", "coll::map_merge_singleton",
-                                "coll2::vec_union_merge", "coll3::tombstone_set_merge", "dompair_incomparable_keys"], ("quick",)),
+                                "coll2::vec_union_merge", "coll3::tombstone_set_merge", "coll3::tombstone_map_merge_one_entry", "dompair_incomparable_keys"], ("quick",)),
             ("kani", "vk_lat", ["::changed", "coll3::tombstone_set_merge", "coll3::tombstone_map_merge", "dompair_incomparable_keys", "point_u8", "coll::set_merge", "coll::map_merge", "coll2::vec_union_merge",
                                 "coll2::union_find_union", "coll2::union_find_merge"], ("thorough",))],
     "C03": [("verus", "lat_ord"), ("verus", "lat_wrap"), ("verus", "lat_pair"), ("verus", "lat_dom"),
@@ -188,7 +208,7 @@ PROPS["C13"] = [("kani", "ov_pipes", ["symmetric_hash_join"], ("quick", "thoroug
 
 PROPS["C10"] = [("kani", "vk_var", ["harness::"], ("quick", "thorough"))]
 
-PROPS["C05"] = [("kani", "vk_lat", ["coll3::tombstone_set"], ("quick",)),
+PROPS["C05"] = [("kani", "vk_lat", ["coll3::tombstone_set", "coll3::tombstone_map_merge_one_entry"], ("quick",)),
                 ("kani", "vk_lat", ["coll3::tombstone"], ("thorough",))]
 PROPS["C06"] = [("kani", "vk_lat", ["coll3::atomize_set_union"], ("quick",)),
                 ("kani", "vk_lat", ["coll3::atomize"], ("thorough",))]
@@ -196,6 +216,11 @@ PROPS["C07"] = [("verus", "lat_pair"),
                 ("kani", "vk_lat", ["coll3::cartesian_product_is_product"], ("quick",)),
                 ("kani", "vk_lat", ["coll3::cartesian", "coll3::keyed"], ("thorough",))]
 
+# quick: every harness under ~60 s; thorough adds the `slow_` ones (MergeOrderedHook with two non-empty inputs, TopLevelFoldHook with 2 items)
+PROPS["C36"] = [("kani", "vk_sim", ["harness::run_hooks", "harness::stream_", "harness::release_", "harness::singleton_", "harness::passthrough_",
+                                    "harness::top_level_", "harness::merge_ordered_inline_0_2"], ("quick",)),
+                ("kani", "vk_sim", ["::harness"], ("thorough",))]
+
 LEVEL = {
-    "C01": "other", "C02": "other", "C03": "other", "C04": "other", "C09": "other", "C05": "other", "C06": "other", "C07": "other", "C15": "other", "C11": "other", "C12": "other", "C14": "other", "C13": "other", "C10": "other",
+    "C01": "other", "C02": "other", "C03": "other", "C04": "other", "C09": "other", "C36": "other", "C05": "other", "C06": "other", "C07": "other", "C15": "other", "C11": "other", "C12": "other", "C14": "other", "C13": "other", "C10": "other",
 }
